@@ -56,62 +56,51 @@ pub fn sfs_fifo(ctx: &Ctx, args: &[&str], bytes: &[u8], first: usize, fifo: &str
     if !Command::new("mkfifo").arg(fifo).status().map(|s| s.success()).unwrap_or(false) {
         return None;
     }
-    // read-write open never blocks on Linux; our handle is closed once everything has been written
-    let mut w = std::fs::OpenOptions::new().read(true).write(true).open(fifo).ok()?;
+    let first = first.min(bytes.len());
+    let feeder = feed_fifo(fifo, vec![bytes[..first].to_vec(), bytes[first..].to_vec()], 60);
     let mut cmd = Command::new(&ctx.sfs_bin);
     cmd.args(args).arg(fifo).env("SFS_ALLOW_STDIN", "1").env_remove("RUST_BACKTRACE").env_remove("RUST_LOG")
         .stdout(Stdio::piped()).stderr(Stdio::piped()).stdin(Stdio::null());
-    let child = cmd.spawn().ok()?;
-    let data = bytes.to_vec();
-    let first = first.min(data.len());
-    // The pipe holds 64 KiB; a reader that gives up early (or never opens the path) must not leave the writer blocked for
-    // ever: writes are non-blocking and stop as soon as the child has exited.
-    {
-        use std::os::fd::AsRawFd;
-        unsafe {
-            let fl = libc::fcntl(w.as_raw_fd(), libc::F_GETFL);
-            libc::fcntl(w.as_raw_fd(), libc::F_SETFL, fl | libc::O_NONBLOCK);
-        }
-    }
-    let gone = std::sync::Arc::new(std::sync::atomic::AtomicBool::new(false));
-    let gone_w = gone.clone();
-    let writer = std::thread::spawn(move || {
-        let mut put = |part: &[u8]| {
-            let mut off = 0;
-            while off < part.len() && !gone_w.load(std::sync::atomic::Ordering::Relaxed) {
-                match w.write(&part[off..]) {
-                    Ok(n) => off += n,
-                    Err(e) if e.kind() == std::io::ErrorKind::WouldBlock || e.kind() == std::io::ErrorKind::Interrupted => std::thread::sleep(std::time::Duration::from_millis(1)),
-                    Err(_) => break,
-                }
+    let out = cmd.spawn().and_then(|c| c.wait_with_output());
+    release_fifo(fifo, feeder);
+    let out = out.ok()?;
+    Some(Run { code: out.status.code(), stdout: out.stdout, stderr: String::from_utf8_lossy(&out.stderr).into_owned() })
+}
+
+/// The writing side of a named pipe, free of timing assumptions: the thread opens the pipe for writing (which blocks until
+/// the reader has opened it - so even an EMPTY stream reaches a reader that exists), writes the parts with an optional pause
+/// between them, and closes.  A reader that goes away early gives EPIPE, which ends the thread.
+fn feed_fifo(fifo: &str, parts: Vec<Vec<u8>>, pause_ms: u64) -> std::thread::JoinHandle<()> {
+    let path = fifo.to_string();
+    std::thread::spawn(move || {
+        let Ok(mut w) = std::fs::OpenOptions::new().write(true).open(&path) else { return };
+        for (i, part) in parts.iter().enumerate() {
+            if i > 0 && !part.is_empty() {
+                std::thread::sleep(std::time::Duration::from_millis(pause_ms));
             }
-        };
-        put(&data[..first]);
-        if first < data.len() {
-            std::thread::sleep(std::time::Duration::from_millis(60));
-            put(&data[first..]);
+            if w.write_all(part).is_err() {
+                return;
+            }
         }
-        // Our handle keeps the pipe (and what is in it) alive until the reader has taken everything: only then is it closed,
-        // which is what gives the reader its end of file.  A reader that opens the path late still finds the data; a reader
-        // that never comes is noticed through `gone`.
-        {
-            use std::os::fd::AsRawFd;
-            loop {
-                let mut pending: libc::c_int = 0;
-                let rc = unsafe { libc::ioctl(w.as_raw_fd(), libc::FIONREAD, &mut pending) };
-                if rc != 0 || pending == 0 || gone_w.load(std::sync::atomic::Ordering::Relaxed) {
-                    break;
-                }
+    })
+}
+
+/// Called after the child has exited: a reader that never opened the pipe would leave the writer blocked in open(); opening
+/// the reading side ourselves (non-blocking) releases it, and draining lets it finish whatever it still wants to write.
+fn release_fifo(fifo: &str, feeder: std::thread::JoinHandle<()>) {
+    use std::io::Read;
+    use std::os::unix::fs::OpenOptionsExt;
+    if !feeder.is_finished() {
+        if let Ok(mut r) = std::fs::OpenOptions::new().read(true).custom_flags(libc::O_NONBLOCK).open(fifo) {
+            let mut buf = [0u8; 65536];
+            while !feeder.is_finished() {
+                let _ = r.read(&mut buf);
                 std::thread::sleep(std::time::Duration::from_millis(1));
             }
         }
-        drop(w);
-    });
-    let out = child.wait_with_output().ok()?;
-    gone.store(true, std::sync::atomic::Ordering::Relaxed);
-    let _ = writer.join();
+    }
+    let _ = feeder.join();
     let _ = std::fs::remove_file(fifo);
-    Some(Run { code: out.status.code(), stdout: out.stdout, stderr: String::from_utf8_lossy(&out.stderr).into_owned() })
 }
 
 pub fn sfs_env(ctx: &Ctx, args: &[&str], stdin: Option<&[u8]>, env: &[(&str, &str)]) -> Run {
@@ -340,52 +329,25 @@ pub fn sfs_in_dir(ctx: &Ctx, args: &[&str], stdin: Option<&[u8]>, dir: &str) -> 
 }
 
 /// Run with a SECONDARY input (e.g. the file named by --samples-file) delivered through a named pipe at `fifo`; `args` already
-/// name that path.  Same protocol as `sfs_fifo`: our handle is closed once the reader has drained the pipe or the child is gone.
+/// name that path.  Same protocol as `sfs_fifo`.
 pub fn sfs_side_fifo(ctx: &Ctx, args: &[&str], fifo: &str, content: &[u8], stdin: Option<&[u8]>) -> Option<Run> {
-    use std::os::fd::AsRawFd;
     let _ = std::fs::remove_file(fifo);
     if !Command::new("mkfifo").arg(fifo).status().map(|s| s.success()).unwrap_or(false) {
         return None;
     }
-    let mut w = std::fs::OpenOptions::new().read(true).write(true).open(fifo).ok()?;
-    unsafe {
-        let fl = libc::fcntl(w.as_raw_fd(), libc::F_GETFL);
-        libc::fcntl(w.as_raw_fd(), libc::F_SETFL, fl | libc::O_NONBLOCK);
-    }
+    let feeder = feed_fifo(fifo, vec![content.to_vec()], 0);
     let mut cmd = Command::new(&ctx.sfs_bin);
     cmd.args(args).env("SFS_ALLOW_STDIN", "1").env_remove("RUST_BACKTRACE").env_remove("RUST_LOG")
         .stdout(Stdio::piped()).stderr(Stdio::piped()).stdin(if stdin.is_some() { Stdio::piped() } else { Stdio::null() });
-    let mut child = cmd.spawn().ok()?;
-    if let Some(bytes) = stdin {
-        let mut si = child.stdin.take().unwrap();
-        let bytes = bytes.to_vec();
-        std::thread::spawn(move || { let _ = si.write_all(&bytes); });
-    }
-    let gone = std::sync::Arc::new(std::sync::atomic::AtomicBool::new(false));
-    let gone_w = gone.clone();
-    let data = content.to_vec();
-    let writer = std::thread::spawn(move || {
-        let mut off = 0;
-        while off < data.len() && !gone_w.load(std::sync::atomic::Ordering::Relaxed) {
-            match w.write(&data[off..]) {
-                Ok(n) => off += n,
-                Err(e) if e.kind() == std::io::ErrorKind::WouldBlock || e.kind() == std::io::ErrorKind::Interrupted => std::thread::sleep(std::time::Duration::from_millis(1)),
-                Err(_) => break,
-            }
+    let out = cmd.spawn().and_then(|mut child| {
+        if let Some(bytes) = stdin {
+            let mut si = child.stdin.take().unwrap();
+            let bytes = bytes.to_vec();
+            std::thread::spawn(move || { let _ = si.write_all(&bytes); });
         }
-        loop {
-            let mut pending: libc::c_int = 0;
-            let rc = unsafe { libc::ioctl(w.as_raw_fd(), libc::FIONREAD, &mut pending) };
-            if rc != 0 || pending == 0 || gone_w.load(std::sync::atomic::Ordering::Relaxed) {
-                break;
-            }
-            std::thread::sleep(std::time::Duration::from_millis(1));
-        }
-        drop(w);
+        child.wait_with_output()
     });
-    let out = child.wait_with_output().ok()?;
-    gone.store(true, std::sync::atomic::Ordering::Relaxed);
-    let _ = writer.join();
-    let _ = std::fs::remove_file(fifo);
+    release_fifo(fifo, feeder);
+    let out = out.ok()?;
     Some(Run { code: out.status.code(), stdout: out.stdout, stderr: String::from_utf8_lossy(&out.stderr).into_owned() })
 }
